@@ -12,7 +12,7 @@
 #include <regex.h>
 #define FAIL(site, kind, shape, ...) mc_fail(site, kind, shape, __VA_ARGS__)
 
-typedef struct { int returned, ret_ok, arg_changed; long alloc_delta; } res_t;
+typedef struct { int returned, ret_ok, arg_changed; long alloc_delta; int aftermath; } res_t;
 typedef struct { void (*fn)(res_t *); const char *func; int pos; const char *param; const char *kind; const char *val; int pinned; } null_case_t;
 extern const null_case_t NULL_CASES[]; extern const int N_NULL_CASES; extern const char *NULL_UNSUPPORTED;
 
